@@ -1,0 +1,36 @@
+//go:build verif
+
+package dir
+
+import "sort"
+
+// VerifActive returns the sorted paths of the directories the repository
+// currently tracks (raw view, no disk access).
+func (r *Repo) VerifActive() []string {
+	r.m.RLock()
+	defer r.m.RUnlock()
+
+	out := make([]string, 0, len(r.dirs))
+	for p := range r.dirs {
+		out = append(out, p)
+	}
+	sort.Strings(out)
+
+	return out
+}
+
+// VerifCounts returns the configured roots and, index-aligned, the
+// repository's directory counter of each root (raw view).
+func (r *Repo) VerifCounts() (roots []string, counts []uint64) {
+	r.m.RLock()
+	defer r.m.RUnlock()
+
+	roots = make([]string, len(r.roots))
+	copy(roots, r.roots)
+	counts = make([]uint64, len(roots))
+	for i, root := range roots {
+		counts[i] = r.counts[root]
+	}
+
+	return roots, counts
+}
